@@ -45,7 +45,8 @@ func main() {
 	verif := flag.String("verif", "/verif", "verification directory (evidence/, replay/, known_findings.json)")
 	replay := flag.String("replay", "", "re-evaluate the obligation recorded in this replay file")
 	dump := flag.String("dump", "", "debug: roles | obs | engines")
-	fixtures := flag.String("fixture", "", "analyse a fixture directory with one engine: <engine>=<dir> (positive controls)")
+	fixtures := flag.String("fixture", "", "unused")
+	controls := flag.String("controls", "", "JSON file with the results of the positive controls run by run.sh (thorough tier); embedded in the evidence")
 	flag.Parse()
 
 	if *fixtures != "" {
@@ -63,7 +64,7 @@ func main() {
 			fmt.Fprintln(os.Stderr, "argverif: bad replay file:", err)
 			os.Exit(2)
 		}
-		os.Exit(run(*repo, rf.Property, *tier, *verif, rf.Key, ""))
+		os.Exit(run(*repo, rf.Property, *tier, *verif, rf.Key, "", ""))
 	}
 
 	if *prop == "" && *dump == "" {
@@ -73,13 +74,13 @@ func main() {
 	if *prop == "all" {
 		rc := 0
 		for _, id := range rules.PropertyIDs() {
-			if c := run(*repo, id, *tier, *verif, "", *dump); c > rc {
+			if c := run(*repo, id, *tier, *verif, "", *dump, *controls); c > rc {
 				rc = c
 			}
 		}
 		os.Exit(rc)
 	}
-	os.Exit(run(*repo, *prop, *tier, *verif, "", *dump))
+	os.Exit(run(*repo, *prop, *tier, *verif, "", *dump, *controls))
 }
 
 func seed() int {
@@ -91,7 +92,7 @@ func seed() int {
 	return 0
 }
 
-func run(repo, prop, tier, verif, onlyKey, dump string) int {
+func run(repo, prop, tier, verif, onlyKey, dump, controls string) int {
 	start := time.Now()
 	if t := os.Getenv("VERIF_TIER"); t != "" && tier == "" {
 		tier = t
@@ -272,6 +273,21 @@ func run(repo, prop, tier, verif, onlyKey, dump string) int {
 		Assumptions: spec.Assumptions,
 		WallS:       time.Since(start).Seconds(),
 		Violations:  violations,
+	}
+	if controls != "" {
+		if b, err := os.ReadFile(controls); err == nil {
+			var cs []map[string]string
+			if json.Unmarshal(b, &cs) == nil {
+				ev.Coverage["positive_controls"] = cs
+				n := 0
+				for _, c := range cs {
+					if c["status"] == "reported" {
+						n++
+					}
+				}
+				ev.Coverage["positive_controls_reported"] = n
+			}
+		}
 	}
 	if err := core.WriteJSON(filepath.Join(verif, "evidence", prop+".json"), ev); err != nil {
 		fmt.Fprintln(os.Stderr, "argverif: cannot write evidence:", err)
